@@ -120,10 +120,10 @@ def result_outcome(res, ntrees=10):
 
 
 def parse_outcome(parser, text, roots=(), ntrees=10, with_errors=False, call_actions=False,
-                  keep=None):
+                  keep=None, parse_kwargs=None):
     """Parse text; returns canonical outcome.  keep: list receiving the raw result."""
     try:
-        res = parser.parse(text)
+        res = parser.parse(text, **(parse_kwargs or {}))
     except Exception as e:
         out = exc_outcome(e, roots)
         return out
